@@ -6,6 +6,7 @@ payload behaviour is interpreted from it, so (scenario, tape) determines the run
 import asyncio
 import gc
 import logging
+import functools
 import sys
 import threading
 import time
@@ -252,7 +253,9 @@ class Harness:
     def payload_fn(self, pid):
         """The callable handed to adopt: a plain function by default, or (spec["callable"]) a functools.partial,
         a bound method, or a callable instance - the latter also in an unhashable variety (defines __eq__)."""
-        fn = self._plain_payload_fn(pid)
+        return self._wrap_callable(self._plain_payload_fn(pid), pid)
+
+    def _wrap_callable(self, fn, pid):
         kind = self.specs[pid].get("callable", "function")
         if kind == "function":
             return fn
@@ -267,6 +270,10 @@ class Harness:
             return _AsyncCallable(fn) if is_async else _SyncCallable(fn)
         if kind == "unhashable-instance":
             return _AsyncUnhashable(fn) if is_async else _SyncUnhashable(fn)
+        if kind == "lambda":
+            # a plain callable that hands back whatever the payload function returns: for the
+            # coroutine flavours that is a coroutine made by a function which is not itself async
+            return lambda *args, **kwargs: fn(*args, **kwargs)
         raise ValueError("unknown callable kind %r" % kind)
 
     def _plain_payload_fn(self, pid):
@@ -486,6 +493,16 @@ class Harness:
                     self.ev("blocking", pid)
                     while True:
                         await sleep(3600.0)
+                elif op == "shutdown-in-thread":
+                    # the well-behaved way for a coroutine payload to stop the daemon: the blocking
+                    # shutdown() runs on a worker thread of the payload's own framework
+                    the_runner = self.runner
+                    call = functools.partial(self.do_shutdown, pid, the_runner)
+                    if fl == "asyncio":
+                        await checkpoint(asyncio.get_running_loop().run_in_executor(None, call))
+                    else:
+                        await checkpoint(trio.to_thread.run_sync(call))
+                    self.ev("step", pid)
                 elif op == "park":
                     # "run until cancelled" idiom: wait on an awaitable nobody else references
                     self.ev("blocking", pid)
@@ -612,18 +629,18 @@ class Harness:
             def sync_exec(*args, **kwargs):
                 return self.run_sync(pid, args, kwargs, mode="execute")
 
-            return sync_exec
+            return self._wrap_callable(sync_exec, pid)
         if fl == "asyncio":
 
             async def aio_exec(*args, **kwargs):
                 return await self.run_async(pid, args, kwargs, asyncio.sleep, asyncio.CancelledError, mode="execute")
 
-            return aio_exec
+            return self._wrap_callable(aio_exec, pid)
 
         async def trio_exec(*args, **kwargs):
             return await self.run_async(pid, args, kwargs, trio.sleep, trio.Cancelled, mode="execute")
 
-        return trio_exec
+        return self._wrap_callable(trio_exec, pid)
 
     def do_shutdown(self, by, runner):
         self.ev("shutdown-call", by=by, runner=self.runners.index(runner))
